@@ -303,7 +303,11 @@ def expected (s : Scen) (cmd : String) : Option (String × String × Scen) :=
   | "forget" =>
     if on then some ("err:Repository", "-", s)
     else some ("ok", if s.snapshots > 0 then "r.snapshot" else "-", { s with snapshots := s.snapshots - 1 })
-  | "prune" | "prune.instant" | "prune.all" => if on then refusedAO else some ("ok", "*", s)
+  -- prune with every option of `PruneOptions`: the guard is the first statement of `prune_repository`
+  | "prune" | "prune.instant" | "prune.all" | "prune.early" | "prune.instant.early" | "prune.instant.all" | "prune.fast"
+  | "prune.uncomp" | "prune.cacheable" | "prune.noresize" | "prune.unused0.repackunl" | "prune.keepdel.keeppack"
+  | "prune.instant.early.all.unused0" | "prune.instant.ignore" =>
+    if on then refusedAO else some ("ok", "*", s)
   | "prune_plan" => some ("ok", "-", s)
   | "repair_index" | "repair_index.dry" | "repair_index.readall" | "repair_index.readall.dry" =>
     if on then refusedAO else some ("ok", "*", s)
@@ -378,7 +382,9 @@ def cmdOfToken (cmd : String) : Option Cmd :=
   | "backup.new" | "backup.same" => some (.backup false)
   | "backup.dry.new" | "backup.dry.same" => some (.backup true)
   | "forget" => some .deleteSnapshots
-  | "prune" | "prune.instant" | "prune.all" => some .prune
+  | "prune" | "prune.instant" | "prune.all" | "prune.early" | "prune.instant.early" | "prune.instant.all" | "prune.fast"
+  | "prune.uncomp" | "prune.cacheable" | "prune.noresize" | "prune.unused0.repackunl" | "prune.keepdel.keeppack"
+  | "prune.instant.early.all.unused0" | "prune.instant.ignore" => some .prune
   | "prune_plan" => some .prunePlan
   | "repair_index" | "repair_index.readall" => some (.repairIndex false)
   | "repair_index.dry" | "repair_index.readall.dry" => some (.repairIndex true)
@@ -458,6 +464,9 @@ def dryTwin (damage cmd : String) : Option (String × List Op) :=
   | "pack", "repair_index.dry" | "pack", "repair_index.readall.dry" | "index", "repair_index.readall.dry"
   | "hcpack", "repair_index.dry" => some ("ok", [.remove .index, .write .index])
   | "index", "repair_index.dry" | "hcindex", "repair_index.dry" => some ("ok", [.write .index])
+  -- more blobs than one index file holds (`big*`: > `Indexer` MAX_COUNT blobs; `bigindex`: every index file lost)
+  | "big", "repair_index.readall.dry" => some ("ok", [.remove .index, .write .index])
+  | "bigindex", "repair_index.dry" | "hcbigindex", "repair_index.readall.dry" => some ("ok", [.write .index])
   | "dmg", "repair_snap.delete.dry" | "hcdmg", "repair_snap.delete.dry" =>
     some ("ok", [.remove .snapshot, .write .index, .write .pack, .write .snapshot])
   | "dmg", "repair_snap.keep.dry" | "hcdmg", "repair_snap.keep.dry" => some ("ok", [.write .index, .write .pack, .write .snapshot])
@@ -471,7 +480,7 @@ def dryTwin (damage cmd : String) : Option (String × List Op) :=
 
 def isHotColdDamage (damage : String) : Bool :=
   damage == "hc" || damage == "hcdmg" || damage == "hcmiss" || damage == "hcmissp" || damage == "hcpack" ||
-  damage == "hcindex"
+  damage == "hcindex" || damage == "hcbig" || damage == "hcbigindex"
 
 /-- the row of a dry token with the dry-run flag cleared (the twin the harness runs). -/
 def Cmd.nonDry : Cmd → Cmd
@@ -486,7 +495,8 @@ def Cmd.nonDry : Cmd → Cmd
 
 /-- the `c15 dryt` scenarios the generator emits (`harness/src/c15.rs` `DRY_TWINS`). -/
 def dryTwinCases : List (String × String) :=
-  [("none", "backup.dry.new"), ("none", "backup.dry.same"), ("none", "rewrite.forget.dry"), ("none", "rewrite.keep.dry"),
+  [("big", "repair_index.readall.dry"), ("bigindex", "repair_index.dry"), ("hcbigindex", "repair_index.readall.dry"),
+   ("none", "backup.dry.new"), ("none", "backup.dry.same"), ("none", "rewrite.forget.dry"), ("none", "rewrite.keep.dry"),
    ("none", "rewtrees.forget.dry"), ("none", "rewtrees.keep.dry"), ("none", "rewtrees.forget.excl.dry"),
    ("none", "rewtrees.keep.excl.dry"), ("none", "restore.plan.dry"),
    ("pack", "repair_index.dry"), ("pack", "repair_index.readall.dry"), ("index", "repair_index.dry"),
